@@ -126,9 +126,15 @@ def check_partition(ctx):
                     continue
                 # must sit in a comprehension without ifs collecting list(g)
                 comp = enclosing_comp(fi.node, node)
-                if comp is None or any(g.ifs for g in comp.generators):
-                    ctx.violation(rule, fi, st, 'the runs are filtered (comprehension with an if) or not collected', node.lineno, clause='c')
+                if comp is not None and any(g.ifs for g in comp.generators):
+                    ctx.violation(rule, fi, st, 'the runs are filtered (comprehension with an if)', node.lineno, clause='c')
                     continue
+                if comp is None:
+                    # consumed by a loop instead of a comprehension: every run must reach the blocks
+                    lp = next((x for x in ast.walk(fi.node) if isinstance(x, ast.For) and x.iter is node), None)
+                    if lp is None:
+                        ctx.undecided(rule, fi, st, 'the runs are neither collected by a comprehension nor consumed by a loop the rule can see', node.lineno, clause='c')
+                        continue
                 ctx.holds(rule, fi, st, 'order-preserving exhaustive partition into runs, no filter', node.lineno, clause='c')
     ctx.unit('groupby_sites', n)
     # consumers: for k, group in <runs>: on every path through the loop body the run reaches
@@ -507,7 +513,7 @@ def check_options(ctx):
     # fields argument: enumerate over the whole field list -> (i, name, field)
     fv = bound.get('fields')
     st = 'CodeGenerator(fields=%s)' % (canon(fv)[:120] if fv is not None else None)
-    if fv is not None and canon(fv) == '[(_v0, _v1[0], _v1[1],) for (_v0, _v1,) in enumerate(self.fields)]':
+    if fv is not None and _is_position_name_field(fv):
         ctx.holds(rule, co, st, '(position, name, field) for every entry of the get_fields() list', e.lineno, clause='e')
     else:
         ctx.violation(rule, co, st, 'the generator must receive (position, name, field) for every entry of the list returned by get_fields(), in order', e.lineno, clause='e')
@@ -524,12 +530,34 @@ def check_options(ctx):
             ctx.holds(rule, ginit, 'self.%s = %s' % (opt, opt), 'stored unchanged', ginit.node.lineno, clause='e')
         else:
             ctx.violation(rule, ginit, 'self.%s' % opt, 'CodeGenerator does not store the %s option unchanged' % opt, ginit.node.lineno, clause='e')
-    # annotate: sourcecode only when annotate
-    ann = [n for n in ast.walk(ginit.node) if isinstance(n, ast.If) and canon(n.test) == 'annotate']
-    if ann and 'sourcecode_by_field_name = sourcecode_by_field_name' in unparse(ann[0].body[0]) and ann[0].orelse and unparse(ann[0].orelse[0]).endswith('= {}'):
+    # annotate: the source map is kept only when annotate is on, otherwise {}
+    seen_on = seen_off = False
+    bad = None
+    for p_ in repo.walker(split_ifexp=True).paths(ginit.node, cls=cg):
+        if p_.raises():
+            continue
+        gt_ = set(p_.guard_texts())
+        st_ = [e_ for e_ in p_.effects if e_.kind == 'store_attr' and canon(e_.obj) == 'self' and e_.name == 'sourcecode_by_field_name']
+        if not st_:
+            bad = 'the source map attribute is not set on a path'
+            continue
+        v_ = st_[-1].value
+        if 'annotate' in gt_:
+            if canon(v_) == 'sourcecode_by_field_name':
+                seen_on = True
+            else:
+                bad = 'with annotate on the attribute is %s' % canon(v_)[:60]
+        elif 'not annotate' in gt_:
+            if isinstance(v_, ast.Dict) and not v_.keys:
+                seen_off = True
+            else:
+                bad = 'with annotate off the attribute is %s' % canon(v_)[:60]
+        else:
+            bad = 'a path does not consult annotate'
+    if seen_on and seen_off and not bad:
         ctx.holds(rule, ginit, 'if annotate: keep the source map else {}', 'annotation only adds comments when switched on', ginit.node.lineno, clause='e')
     else:
-        ctx.violation(rule, ginit, 'annotate', 'the annotate option does not select between the source map and {}', ginit.node.lineno, clause='e')
+        ctx.violation(rule, ginit, 'annotate', 'the annotate option does not select between the source map and {} (%s)' % (bad or 'no such paths'), ginit.node.lineno, clause='e')
     # generate_code: produced and installed only under own flag
     gc = cg.methods.get('generate_code')
     from ..cache import CacheModel
@@ -559,6 +587,30 @@ def check_options(ctx):
         ctx.holds(rule, ff, 'if self.vectorize: runs by endianness else one block per field', 'vectorize only changes the grouping', ff.node.lineno, clause='e')
     else:
         ctx.violation(rule, ff, 'vectorize', 'the vectorize option does not select between runs and single-field blocks', ff.node.lineno, clause='e')
+
+
+def _is_position_name_field(fv):
+    """[(i, name, field) for i, <entry> in enumerate(self.fields)] however the entry is taken apart"""
+    if not (isinstance(fv, (ast.ListComp, ast.GeneratorExp)) and len(fv.generators) == 1):
+        return False
+    g = fv.generators[0]
+    if g.ifs or canon(g.iter) != 'enumerate(self.fields)' or not (isinstance(g.target, ast.Tuple) and len(g.target.elts) == 2):
+        return False
+    env = {}
+
+    def bind(t, v):
+        if isinstance(t, ast.Name):
+            env[t.id] = v
+        elif isinstance(t, (ast.Tuple, ast.List)):
+            for i, x in enumerate(t.elts):
+                if isinstance(x, ast.Starred):
+                    bind(x.value, ast.Subscript(value=v, slice=ast.Slice(lower=ast.Constant(value=i)), ctx=ast.Load()))
+                else:
+                    bind(x, ast.Subscript(value=v, slice=ast.Constant(value=i), ctx=ast.Load()))
+    bind(g.target.elts[0], ast.Name(id='I', ctx=ast.Load()))
+    bind(g.target.elts[1], ast.Name(id='ENTRY', ctx=ast.Load()))
+    from ..expr import subst
+    return canon(subst(fv.elt, env)) == '(I, ENTRY[0], ENTRY[1],)'
 
 
 # ---------------------------------------------------------------- (f) comments
